@@ -273,7 +273,8 @@ where
             return Err("no-progress".into());
         }
     }
-    pair.finish();
+    // `pair.finish()` (assertions of the providers' own tests, among them one seal/open per direction with the
+    // handshake's 1-RTT keys) is deliberately not called: whether the two sides' keys agree is what the ops report
     let (ck, ch) = pair.client.context.application.crypto.take().ok_or("no-client-keys")?;
     let (sk, sh) = pair.server.context.application.crypto.take().ok_or("no-server-keys")?;
     Ok((Side { gens: vec![Box::new(ck)], header: Box::new(ch) }, Side { gens: vec![Box::new(sk)], header: Box::new(sh) }))
